@@ -34,6 +34,7 @@ var (
 	objSpace = uuid.NewV5(uuid.Nil, "verif-object")
 	subSpace = uuid.NewV5(uuid.Nil, "verif-subject")
 	errFault = errors.New("verif: injected storage fault")
+	errLeak  = errors.New("verif: rows of another network visible")
 )
 
 func objUUID(i int) uuid.UUID { return uuid.NewV5(objSpace, strconv.Itoa(i)) }
@@ -353,7 +354,7 @@ func (e *engEnv) storedOrder(orig []Tup) ([]Tup, error) {
 		out = append(out, t)
 	}
 	if len(out) != len(orig) {
-		return nil, fmt.Errorf("stored %d rows, wrote %d", len(out), len(orig))
+		return nil, fmt.Errorf("%w: listing the network returned %d rows, %d were written to it", errLeak, len(out), len(orig))
 	}
 	return out, nil
 }
